@@ -440,8 +440,12 @@ def gen_cases(tier, rng, info):
             cases.append({'op': 'bibparse', 'text': '@a(k, editor = "%s" # {%s}) @b{j}' % (nm, nm[::-1].replace('}{', '{}')), 'fam': 'person'})
             nname += 1
     # deep nesting: names and values nested 99 / 100 / 101 / 150 deep (the name scanner has a nesting limit; unbounded recursion is excluded by the property)
-    for depth in (99, 100, 101, 150):
+    # ... and far beyond the interpreter's own recursion limit (about 1000 frames): the reader's nesting guard must answer first
+    for depth in (99, 100, 101, 150, 1200, 6000):
         deep = '{' * depth + 'x' + '}' * depth
+        if depth > 1000:
+            cases.append({'op': 'bibparse', 'text': '@a{j, t = {before}} @preamble{%s} @a{k, t = {after}}' % deep})
+            cases.append({'op': 'bibparse', 'text': '@a{j, t = {before}}\n@a{k, note = "%s"}\n@a{l, t = {after}}' % deep})
         for t in ('@a{k, author = %s}' % deep, '@a{k, author = {A %s and B}}' % deep, '@a{k, t = %s # "q"}' % deep, '@a{k, editor = "%s"}' % deep,
                   '@string{m = %s} @a{k, author = m}' % deep):
             cases.append({'op': 'bibparse', 'text': t})
